@@ -214,10 +214,17 @@ func asCoq(as map[int]int) string {
 	return cList(it)
 }
 
+// expectedAs is the treated-as relation per the statement: the built-in OK/Success -> Info,
+// Fail -> Error, plus what the registrations of this scenario ASKED for (never read back from
+// the implementation's table: a registration that stores something else must show up).
+var expectedAs = map[int]int{}
+
+func resetExpectedAs() { expectedAs = map[int]int{9: 4, 10: 4, 11: 2} }
+
 func treatedAs() map[int]int {
 	m := map[int]int{}
-	for k, v := range slog.VerifTreatedAs() {
-		m[int(k)] = int(v)
+	for k, v := range expectedAs {
+		m[k] = v
 	}
 	return m
 }
@@ -265,10 +272,21 @@ func genRegSample(rg *Rng) regSample {
 		}
 		used[v] = true
 		s.vals = append(s.vals, v)
-		if rg.Bool() {
-			s.treat = append(s.treat, []int{0, 2, 3, 4, 5, 6, 7, 8, 11}[rg.Intn(9)])
-		} else {
+		switch len(s.treat) { // every sample has the boundary cases: treated as Panic (0), as Info, none, as Off/Always
+		case 0:
+			s.treat = append(s.treat, 0)
+		case 1:
+			s.treat = append(s.treat, 4)
+		case 2:
 			s.treat = append(s.treat, -1)
+		case 3:
+			s.treat = append(s.treat, []int{7, 8}[rg.Intn(2)])
+		default:
+			if rg.Bool() {
+				s.treat = append(s.treat, []int{0, 2, 3, 4, 5, 6, 7, 8, 11}[rg.Intn(9)])
+			} else {
+				s.treat = append(s.treat, -1)
+			}
 		}
 	}
 	return s
@@ -279,6 +297,7 @@ func (s regSample) register() {
 		var opts []slog.RegOpt
 		if s.treat[i] >= 0 {
 			opts = append(opts, slog.RegWithTreatedAsLevel(slog.Level(s.treat[i])))
+			expectedAs[v] = s.treat[i]
 		}
 		if err := slog.RegisterLevel(slog.Level(v), fmt.Sprintf("custom%d", i), opts...); err != nil {
 			panic(err)
@@ -290,6 +309,7 @@ func runC01(r *Run) {
 	snap := slog.VerifSnapshot()
 	r.Coq("Require Import Verif.Model.Base Verif.Model.Level Verif.Model.Emit Verif.Corr.C01.", "case", "ok")
 	r.Rule = "grid: logger level x severity x debug x every entry point (Entry methods found by reflection, package functions listed) under registry samples with random custom levels; plus random histories (SetLevel/WithLevel/RegisterLevel/SetDebugMode) followed by probes; non-trivial = decision not forced by Off/Always/Verbose; distinct by cell"
+	resetExpectedAs()
 	eps := append(entryMethods(), pkgEntryPoints()...)
 	for i := range eps {
 		if eps[i].Sev == sevUnknown {
@@ -303,6 +323,7 @@ func runC01(r *Run) {
 	nsamples := r.N(2, 8)
 	for si := 0; si < nsamples; si++ {
 		resetProcess(snap)
+		resetExpectedAs()
 		slog.AddFlags(slog.LnoInterrupt)
 		var sample regSample
 		if si > 0 {
@@ -368,6 +389,12 @@ type c01Hist struct {
 
 func c01History(r *Run, snap *slog.VerifRegistry, eps []entryPoint) {
 	resetProcess(snap)
+	resetExpectedAs()
+	histUsed := map[int]bool{}
+	for l := 0; l < 12; l++ {
+		histUsed[l] = true
+	}
+	histTitles := map[string]bool{}
 	slog.AddFlags(slog.LnoInterrupt)
 	rg := r.R
 	root := slog.VerifEntryOf(slog.New("h"))
@@ -401,12 +428,18 @@ func c01History(r *Run, snap *slog.VerifRegistry, eps []entryPoint) {
 			treat := -1
 			var opts []slog.RegOpt
 			if rg.Bool() {
-				treat = []int{2, 3, 4, 5, 6}[rg.Intn(5)]
+				treat = []int{0, 2, 3, 4, 5, 6}[rg.Intn(6)]
 				opts = append(opts, slog.RegWithTreatedAsLevel(slog.Level(treat)))
 			}
 			title := fmt.Sprintf("h%d", nreg%3) // titles collide on purpose
 			nreg++
 			_ = slog.RegisterLevel(slog.Level(v), title, opts...)
+			if !histUsed[v] && !histTitles[title] { // the registration must have been accepted
+				histUsed[v], histTitles[title] = true, true
+				if treat >= 0 {
+					expectedAs[v] = treat
+				}
+			}
 			ops = append(ops, gop{Kind: "GRegister", V: v, Treat: treat})
 			tr := "lv_max"
 			if treat >= 0 {
@@ -475,10 +508,12 @@ func replayC01(r *Run, file string) {
 		return
 	}
 	resetProcess(snap)
+	resetExpectedAs()
 	slog.AddFlags(slog.LnoInterrupt)
 	for v, t := range cell.As {
 		if v >= 12 || v < 0 {
 			_ = slog.RegisterLevel(slog.Level(v), fmt.Sprintf("replay%d", v), slog.RegWithTreatedAsLevel(slog.Level(t)))
+			expectedAs[v] = t
 		}
 	}
 	var ep entryPoint
